@@ -3,6 +3,7 @@
 -/
 import Nuts.Model.ListDS
 import Nuts.Spec.RList
+import NutsProofs.Lemmas.LRem
 namespace NutsProofs.C05
 open Nuts Nuts.Model Nuts.Spec
 
@@ -50,5 +51,189 @@ theorem lrange_start_below_fixed : ListDS.lrangeL [[1], [2]] false (-5) 1 = .ok 
 theorem lrange_missing (s e : Int) : ListDS.lrangeL [] true s e = .err := by
   unfold ListDS.lrangeL NutsGen.K.list_LRange.run
   simp
+
+/-! ### the map of lists -/
+
+theorem get_put_self (s : ListDS.St) (k : Bytes) (v : List Bytes) : ListDS.get? (ListDS.put s k v) k = some v := by
+  induction s with
+  | nil => simp [ListDS.put, ListDS.get?]
+  | cons p rest ih =>
+    obtain ⟨k', v'⟩ := p
+    by_cases h : k' = k <;> simp [ListDS.put, ListDS.get?, h, ih]
+
+theorem get_put_other (s : ListDS.St) (k k' : Bytes) (v : List Bytes) (h : k' ≠ k) :
+    ListDS.get? (ListDS.put s k v) k' = ListDS.get? s k' := by
+  induction s with
+  | nil => simp [ListDS.put, ListDS.get?, Ne.symm h]
+  | cons p rest ih =>
+    obtain ⟨k0, v0⟩ := p
+    by_cases h0 : k0 = k
+    · subst h0; simp [ListDS.put, ListDS.get?, Ne.symm h]
+    · by_cases h1 : k0 = k'
+      · subst h1; simp [ListDS.put, ListDS.get?, h0]
+      · simp [ListDS.put, ListDS.get?, h0, h1, ih]
+
+/-- the list a key holds (a missing key is the empty list, as in Redis) -/
+def listOf (s : ListDS.St) (k : Bytes) : List Bytes := (ListDS.get? s k).getD []
+
+/-- **C05 / RPush**: appends the values in order; returns the new length; other keys untouched -/
+theorem rpush_spec (s : ListDS.St) (k : Bytes) (vs : List Bytes) (hv : vs ≠ []) :
+    listOf (ListDS.rpush s k vs).1 k = listOf s k ++ vs ∧
+    (ListDS.rpush s k vs).2 = .ok (listOf s k ++ vs).length ∧
+    ∀ k', k' ≠ k → ListDS.get? (ListDS.rpush s k vs).1 k' = ListDS.get? s k' := by
+  have he : vs.isEmpty = false := by cases vs with | nil => exact absurd rfl hv | cons _ _ => rfl
+  unfold ListDS.rpush listOf
+  simp only [he, Bool.false_eq_true, if_false, ListDS.size, get_put_self, Option.getD_some]
+  exact ⟨trivial, trivial, fun k' hk' => get_put_other s k k' _ hk'⟩
+
+/-- **C05 / LPush**: each value in turn goes to the head (so the last one pushed is first) -/
+theorem lpush_spec (s : ListDS.St) (k : Bytes) (vs : List Bytes) :
+    listOf (ListDS.lpush s k vs).1 k = vs.reverse ++ listOf s k ∧
+    (ListDS.lpush s k vs).2 = .ok (vs.reverse ++ listOf s k).length ∧
+    ∀ k', k' ≠ k → ListDS.get? (ListDS.lpush s k vs).1 k' = ListDS.get? s k' := by
+  unfold ListDS.lpush listOf
+  simp only [get_put_self, Option.getD_some]
+  exact ⟨trivial, trivial, fun k' hk' => get_put_other s k k' _ hk'⟩
+
+/-- **C05 / LPop**: the head, removed; an error on an empty or missing list, which stays as it is -/
+theorem lpop_spec (s : ListDS.St) (k : Bytes) :
+    match listOf s k with
+    | [] => ListDS.lpop s k = (s, .err)
+    | x :: xs => (ListDS.lpop s k).2 = .ok x ∧ listOf (ListDS.lpop s k).1 k = xs ∧
+        ∀ k', k' ≠ k → ListDS.get? (ListDS.lpop s k).1 k' = ListDS.get? s k' := by
+  unfold listOf ListDS.lpop
+  cases hg : ListDS.get? s k with
+  | none => rfl
+  | some l =>
+    cases l with
+    | nil => rfl
+    | cons x xs =>
+      simp only [Option.getD_some, get_put_self]
+      exact ⟨trivial, trivial, fun k' hk' => get_put_other s k k' _ hk'⟩
+
+/-- **C05 / RPop**: the last element, removed; an error on an empty or missing list -/
+theorem rpop_spec (s : ListDS.St) (k : Bytes) :
+    match (listOf s k).getLast? with
+    | none => ListDS.rpop s k = (s, .err)
+    | some x => (ListDS.rpop s k).2 = .ok x ∧ listOf (ListDS.rpop s k).1 k = (listOf s k).dropLast ∧
+        ∀ k', k' ≠ k → ListDS.get? (ListDS.rpop s k).1 k' = ListDS.get? s k' := by
+  unfold listOf ListDS.rpop
+  cases hg : ListDS.get? s k with
+  | none => rfl
+  | some l =>
+    simp only [Option.getD_some]
+    cases hl : l.getLast? with
+    | none => rfl
+    | some x =>
+      simp only [get_put_self, Option.getD_some]
+      exact ⟨trivial, trivial, fun k' hk' => get_put_other s k k' _ hk'⟩
+
+/-- **C05 / LPeek, RPeek, LSize**: head, last element, length; errors exactly on empty / missing lists
+(`LSize` of a key that holds an empty list is 0) -/
+theorem peek_size_spec (s : ListDS.St) (k : Bytes) :
+    (ListDS.lpeek s k = match listOf s k with | [] => .err | x :: _ => .ok x) ∧
+    (ListDS.rpeek s k = match (listOf s k).getLast? with | none => .err | some x => .ok x) ∧
+    (ListDS.size s k = match ListDS.get? s k with | none => .err | some l => .ok l.length) := by
+  unfold listOf ListDS.lpeek ListDS.rpeek ListDS.size
+  cases hg : ListDS.get? s k with
+  | none => exact ⟨rfl, rfl, rfl⟩
+  | some l =>
+    cases l with
+    | nil => exact ⟨rfl, rfl, rfl⟩
+    | cons x xs => exact ⟨rfl, rfl, rfl⟩
+
+/-- **C05 / LSet** (the regenerated bounds test): an index in `0 … size-1` of an existing key stores the
+value there; every other index — negative ones included, which Redis would count from the tail — and a
+missing key are reported as an error and change nothing; never a panic -/
+theorem lset_spec (s : ListDS.St) (k : Bytes) (idx : Int) (v : Bytes) :
+    if (ListDS.get? s k).isSome ∧ 0 ≤ idx ∧ idx < (listOf s k).length then
+      (ListDS.lset s k idx v).2 = .ok () ∧ listOf (ListDS.lset s k idx v).1 k = (listOf s k).set idx.toNat v ∧
+      RList.lset (listOf s k) idx v = some ((listOf s k).set idx.toNat v)
+    else ListDS.lset s k idx v = (s, .err) := by
+  unfold ListDS.lset listOf NutsGen.K.list_LSet.run
+  cases hg : ListDS.get? s k with
+  | none => simp
+  | some l =>
+    simp only [Option.isSome_some, Option.getD_some, true_and, if_true]
+    by_cases h1 : idx ≥ (l.length : Int)
+    · have : ¬ (0 ≤ idx ∧ idx < (l.length : Int)) := by omega
+      simp [h1, this]
+    · by_cases h2 : idx < 0
+      · have : ¬ (0 ≤ idx ∧ idx < (l.length : Int)) := by omega
+        simp [h1, h2, this]
+      · have h3 : 0 ≤ idx ∧ idx < (l.length : Int) := by omega
+        simp only [h1, h2, if_false, h3, and_self, if_true, get_put_self, Option.getD_some, true_and]
+        unfold RList.lset RList.norm
+        simp [h2, h3]
+
+/-- **C05 / LTrim**: keeps exactly the Redis range; an empty range or a missing key is an error that
+changes nothing; never a panic (list shorter than 2^62, machine-integer bounds) -/
+theorem ltrim_spec (s : ListDS.St) (k : Bytes) (st en : Int) (hs : inRange64 st) (he : inRange64 en)
+    (hn : ((listOf s k).length : Int) < 4611686018427387904) :
+    match ListDS.get? s k with
+    | none => ListDS.ltrim s k st en = (s, .err)
+    | some l =>
+      if RList.lrange l st en = [] then ListDS.ltrim s k st en = (s, .err)
+      else (ListDS.ltrim s k st en).2 = .ok () ∧ listOf (ListDS.ltrim s k st en).1 k = RList.lrange l st en := by
+  unfold ListDS.ltrim
+  cases hg : ListDS.get? s k with
+  | none => rfl
+  | some l =>
+    simp only []
+    have hl : (l.length : Int) < 4611686018427387904 := by unfold listOf at hn; rw [hg] at hn; exact hn
+    have := lrange_spec l st en hl hs he
+    cases hr : ListDS.lrangeL l false st en with
+    | ok r =>
+      rw [hr] at this
+      simp only [RList.Acceptable] at this
+      subst this
+      -- the kernel returns `ok` only on a non-empty range
+      have hne : RList.lrange l st en ≠ [] := by
+        intro hemp
+        unfold ListDS.lrangeL at hr
+        rcases lrange_kernel_ok l.length st en hl hs he _ rfl with ⟨h1, _⟩ | ⟨lo, hi, h1, h2, h3, h4, h5, h6⟩
+        · simp only [h1] at hr; cases hr
+        · unfold RList.lrange at hemp
+          have : ¬ (RList.startIdx l.length st > RList.stopIdx l.length en) := by omega
+          simp only [this, if_false] at hemp
+          have hlen := congrArg List.length hemp
+          simp only [List.length_take, List.length_drop, List.length_nil] at hlen
+          omega
+      simp only [hne, if_false, listOf, get_put_self, Option.getD_some, and_self]
+    | err =>
+      rw [hr] at this
+      simp only [RList.Acceptable, List.isEmpty_iff] at this
+      simp [this]
+    | panic => rw [hr] at this; exact absurd this (by simp [RList.Acceptable])
+
+/-- **C05 / LRem**: Redis `LREM` — the first `count` occurrences from the head (`count > 0`), from the tail
+(`count < 0`), or all of them (`count = 0`) are removed, the number removed is returned and the remaining
+elements keep their order; a count above the size, and a missing key, are errors that change nothing; never a
+panic (every machine integer as count — `MinInt64`, whose negation overflows, included: the fixed finding
+D-LREM-MININT — and lists shorter than 2^62) -/
+theorem lrem_spec (s : ListDS.St) (k : Bytes) (count : Int) (v : Bytes)
+    (hn : ((listOf s k).length : Int) < 4611686018427387904) :
+    match ListDS.get? s k with
+    | none => ListDS.lrem s k count v = (s, .err)
+    | some l =>
+      if count > (l.length : Int) then ListDS.lrem s k count v = (s, .err)
+      else (ListDS.lrem s k count v).2 = .ok (RList.lrem l count v).2 ∧
+           listOf (ListDS.lrem s k count v).1 k = (RList.lrem l count v).1 ∧
+           ∀ k', k' ≠ k → ListDS.get? (ListDS.lrem s k count v).1 k' = ListDS.get? s k' := by
+  unfold ListDS.lrem
+  cases hg : ListDS.get? s k with
+  | none => rfl
+  | some l =>
+    have hl : (l.length : Int) < 4611686018427387904 := by unfold listOf at hn; rw [hg] at hn; exact hn
+    simp only []
+    rw [LRem.lremL_spec l count v hl]
+    by_cases hbig : count > (l.length : Int)
+    · simp [hbig]
+    · simp only [hbig, if_false, listOf, get_put_self, Option.getD_some, true_and]
+      exact fun k' hk' => get_put_other s k k' _ hk'
+
+/-- the count whose negation overflows: five elements, all of them removed from the tail side, no panic -/
+theorem lrem_minint_fixed :
+    ListDS.lremL [[1], [2], [1], [1], [3]] (-9223372036854775808) [1] = .ok ([[2], [3]], 3) := by decide
 
 end NutsProofs.C05
